@@ -281,17 +281,20 @@ RECOVER_NOTE = ("crash = a prefix of the durable write sequence of a real run (e
                 "the verifhooks hooks (coq/recover); ")
 CHECKS["C09"] = dict(
     engine="coq-resume",
-    text="Coq theorems: c09_finished_plan_runs_nothing (a plan not durably Running is not resumed: no plugin call, no write), "
-         "c09_no_reexecution_partial (for EVERY well-formed crash image, every flag set and every trace accepted by the resumed automaton "
-         "from the repair of that image, no sequence action that was durably Completed / whose last durable attempt had no error is invoked, "
-         "and nothing is invoked inside a durably Completed or Failed sequence, block or plan) and c09_crash_chain (the same after any "
-         "number of crashes), on top of coq/recover's fix_never_unfinishes. Every real recovery (each write prefix of each recorded run, "
-         "sampled double crashes) must be accepted by the resumed automaton and satisfy the independent monitor mon_noreexec (vm_compute); "
-         "the crash image is checked equal to the store read-back and well-formed (img_wf) on every case.",
-    note=RECOVER_NOTE + "PARTIAL in one respect: the statement is for images satisfying the boolean img_wf; that every durable image of an "
-         "uninterrupted run is well-formed is checked on every real crash image (never failed) but not yet proved as an invariant of the "
-         "engine automaton",
-    technique="Coq proof (invariant of the resumed automaton + repair facts derived from coq/recover) + trace-acceptance correspondence on real recoveries + direct function equality for the repair functions",
+    text="Coq theorems: c09_finished_plan_runs_nothing (a plan not durably Running is not resumed: no plugin call, no write); "
+         "c09_no_reexecution (coq/imgwf: for EVERY trace accepted by the engine automaton, every write prefix k, every full read of the "
+         "crash image, every flag set and every trace accepted by the resumed automaton from the repair of that image: no sequence action "
+         "with a durable attempt-bearing result that repair turns into Completed/Failed is invoked, nothing is invoked inside a durably "
+         "Completed or Failed sequence, block or plan) — the well-formedness of crash images is PROVED as an invariant of the engine "
+         "automaton (hinv + C06's pinv), so the first crash needs no premise; c09_crash_chain(_full) for any number of crashes, "
+         "unconditional for two processes. Every real recovery (each write prefix of each recorded run incl. an overrun family, sampled "
+         "double crashes) must be accepted by the resumed automaton and satisfy the independent monitor mon_noreexec (vm_compute); the "
+         "crash image is checked equal to the store read-back and well-formed on every case; the repair functions have a direct "
+         "function-equality correspondence.",
+    note=RECOVER_NOTE + "for the THIRD and later process of a crash chain, well-formedness (img_wf0) of the image left by a crashed recovery "
+         "remains a premise (proved negative: the resumed automaton does not preserve the stronger img_wf); it is evaluated on every "
+         "real double-crash image and has never failed",
+    technique="Coq proof (invariants of the engine and resumed automata + repair facts derived from coq/recover) + trace-acceptance correspondence on real recoveries + direct function equality for the repair functions",
     design="DESIGN.md section 6 C09, section 13")
 CHECKS["C10"] = dict(
     engine="coq-resume",
@@ -331,7 +334,13 @@ def main():
             level_claimed=dict(category="proof", text=c["text"], design_ref=c["design"]),
             level_note=COMMON_NOTE + c["note"], technique=c["technique"]))
     m["not_applicable"] = [dict(property_id=p, reason=PENDING_REASON) for p in ALL if p not in CHECKS]
-    m["notes"] = "see DESIGN.md (section 13 records what was built per property); known findings: known_findings.json; seeded changes: seeded/"
+    m["notes"] = ("see DESIGN.md (section 13 records what was built per property); known findings: known_findings.json; seeded changes: "
+                  "seeded/ (RESULTS.json: 79 of 79 caught). Supporting checks that are not properties of their own: ./check MECH "
+                  "(mechanism theorems of coq/limiter + source-shape tie), ./check GLUE (31 cross-model composition theorems), ./check GEN "
+                  "(gen_accepted: for every well-formed non-empty shape and every oracle the engine automaton accepts a complete released "
+                  "trace, so the C01-C08 theorems are not vacuous; generator = real sequential engine runs), python3 lib/props/smgraph.py "
+                  "(state graph regenerated from the Go source), python3 lib/props/repair.py (crash-repair function equality). "
+                  "tools/runall.sh runs every registered check and validates every evidence file.")
     with open(os.path.join(ROOT, "MANIFEST.json"), "w") as f:
         json.dump(m, f, indent=1)
     print("claimed:", [c["property_id"] for c in m["checks"]])
